@@ -257,6 +257,7 @@ SKELETONS = {
     'art1': ('article', ['S', 'SS', 'SS', 'SSS', 'S', 'EQ', 'SS', 'EQ', 'FIG', 'S']),
     'art2': ('article', ['S', 'ENUM', 'SS', 'SET', 'S', 'SS', 'APP', 'S', 'SS']),
     'art3': ('article', ['EQN', 'S', 'EQ', 'EQN']),
+    'thm': ('article', ['THMDEF', 'S', 'THM', 'LEM', 'COR', 'S', 'LEM', 'THM', 'COR', 'SS', 'THM', 'SET', 'S', 'THM']),
     'book1': ('book', ['C', 'S', 'EQ', 'SS', 'C', 'EQ', 'S', 'FIG', 'S']),
     'book2': ('book', ['C', 'S', 'SET', 'S', 'APP', 'C', 'S']),
 }
@@ -269,10 +270,10 @@ def h_doc(e, skel, depth):
     doc = TeXDocument()
     doc.config['document']['sec-num-depth'] = depth
     src = ['\\documentclass{%s}\\begin{document}' % cls]
-    cnt = {'chapter': 0, 'section': 0, 'subsection': 0, 'subsubsection': 0, 'equation': 0, 'figure': 0}
+    cnt = {'chapter': 0, 'section': 0, 'subsection': 0, 'subsubsection': 0, 'equation': 0, 'figure': 0, 'thm': 0, 'cor': 0}
     appendix = False
     expect = []          # (nodeName, expected ref text or None)
-    below = {'chapter': ['section', 'equation', 'figure'], 'section': ['subsection'], 'subsection': ['subsubsection'], 'subsubsection': []}
+    below = {'chapter': ['section', 'equation', 'figure'], 'section': ['subsection'] + (['thm'] if 'THMDEF' in items else []), 'subsection': ['subsubsection'], 'subsubsection': []}
 
     def reset_below(name):
         for ch in below.get(name, []):
@@ -319,6 +320,17 @@ def h_doc(e, skel, depth):
                 expect.append(('equation', the('equation')))
             except _OutOfRange:
                 expect.append(('equation', 'skip'))
+        elif it == 'THMDEF':
+            # theorem within section, lemma sharing the theorem counter, corollary with its own counter
+            src[0] = src[0].replace('\\begin{document}', '\\newtheorem{thm}{Theorem}[section]\\newtheorem{lem}[thm]{Lemma}\\newtheorem{cor}{Corollary}\\begin{document}')
+        elif it in ('THM', 'LEM'):
+            src.append('\\begin{%s}t\\end{%s}' % (it.lower(), it.lower()))
+            cnt['thm'] = cnt['thm'] + 1
+            expect.append(('thmenv', the('section') + ['.'] + _num(cnt['thm'])))
+        elif it == 'COR':
+            src.append('\\begin{cor}t\\end{cor}')
+            cnt['cor'] = cnt['cor'] + 1
+            expect.append(('thmenv', _num(cnt['cor'])))
         elif it == 'EQN':
             # eqnarray with three rows, \\nonumber on one of them (or none)
             nn = e.choice(4, 'nonumber%d' % k)
@@ -436,7 +448,7 @@ def jobs(tier, seed):
         for g in graphs(n):
             nops = 3 if (q or n == 4) else 4
             J.append(dict(harness='h_reset', params=dict(n=n, parents=list(g), nops=nops), label='reset n=%d %s ops=%d' % (n, g, nops), no_twin=n > 2))
-    sk = ['art1', 'art2', 'art3', 'book1'] if q else list(SKELETONS)
+    sk = ['art1', 'art2', 'art3', 'thm', 'book1'] if q else list(SKELETONS)
     for s in sk:
         for depth in ((0, 1, 2, 3) if q else (-1, 0, 1, 2, 3, 4)):
             J.append(dict(harness='h_doc', params=dict(skel=s, depth=depth), label='doc %s depth=%d' % (s, depth), split=3, no_twin=depth != 2))
